@@ -230,9 +230,20 @@ def r4(ctx):
     imp = [x for x in walk_exprs(ph) if x["k"] == "Assign" and render(x["l"]) == "limit" and render(x["r"]) == "1"]
     ok = False
     why = "assignment `limit = 1` not found exactly once"
-    if len(imp) == 1:
-        g = [t for t in guards_of(ph, imp[0]) if t[0] == "if"]
-        ok = bool(g)
+    # where the limit is not patched by an assignment but computed as a value (`let limit = match requested { 0 if .. => 1, n => n }`),
+    # the initialiser of the Query's `limit` field is evaluated instead
+    by_value = None
+    if len(imp) != 1:
+        lits_ = [x for x in walk_exprs(ph) if x["k"] == "Struct" and str(x.get("res", "")).endswith("query::Query")]
+        if len(lits_) == 1:
+            fl_ = {f_["name"]: f_["e"] for f_ in lits_[0]["fields"]}.get("limit")
+            locs_ = Locals(ph)
+            nd_ = peel(fl_) if fl_ is not None else None
+            if nd_ is not None and nd_["k"] == "Path" and nd_.get("rk") == "Local" and nd_["res"] in locs_.defs:
+                by_value = locs_.defs[nd_["res"]]
+    if len(imp) == 1 or by_value is not None:
+        g = [t for t in guards_of(ph, imp[0]) if t[0] == "if"] if len(imp) == 1 else []
+        ok = bool(g) or by_value is not None
         why = ""
         NONE, some = interp.NONE, interp.some
 
@@ -268,7 +279,18 @@ def r4(ctx):
                         return (not recv,)
                     return None
                 try:
-                    vals = [interp.eval_in(ph, t[1], {"limit": L, "fields": fields}, call=call2, prog=ctx.prog) == t[2] for t in g]
+                    if by_value is not None:
+                        def call3(node, recv, args, it, env, L=L):
+                            m_ = node.get("m") or ""
+                            if m_.startswith("parse_limit") or "Parser::parse_limit" in str(node.get("callee", "")):
+                                return (interp.V("Result::Ok", [L]),)
+                            return call2(node, recv, args, it, env)
+                        v_ = interp.eval_in(ph, by_value, {"fields": fields}, call=call3, prog=ctx.prog)
+                        if v_ not in (1, L):
+                            raise interp.Undecided("the limit of the query is %r" % (v_,))
+                        vals = [v_ == 1 and L != 1]
+                    else:
+                        vals = [interp.eval_in(ph, t[1], {"limit": L, "fields": fields}, call=call2, prog=ctx.prog) == t[2] for t in g]
                 except interp.Undecided as e:
                     ok = False
                     why = "cannot evaluate the guard: %s" % e
